@@ -88,28 +88,35 @@ func main() {
 	// (2) concurrent Compile sharing options and environment values
 	shared := &opEnv{Env: c08lib.EnvA(), Tag: "t"}
 	mapEnv := map[string]interface{}{"S": "a", "I": 1, "A": []int{1, 2}, "Up": func(s string) string { return s + "!" }}
-	// Option VALUES shared by all goroutines (the realistic way to use options: build once, compile many)
-	sharedMapEnvOpt := expr.Env(mapEnv)
-	sharedStructOpt := expr.Env(shared)
+	// Option VALUES shared by all goroutines (the realistic way to use options: build once, compile many).
+	// They are built afresh for every round, so that the first use of each option value is concurrent too.
 	type job struct {
 		src string
 		ops []expr.Option
 	}
-	jobs := []job{
-		{`S + Tag`, []expr.Option{expr.Env(shared), expr.Operator("+", "AddS")}},
-		{`Up("x") + S`, []expr.Option{expr.Env(shared), expr.ConstExpr("Up")}},
-		{`PtrMeth() + I`, []expr.Option{expr.Env(shared)}},
-		{`Twice(I) in 1..9 and S matches "a"`, []expr.Option{expr.Env(*shared), expr.Patch(noopVisitor{})}},
-		{`Up(S) + "y"`, []expr.Option{expr.Env(mapEnv), expr.AllowUndefinedVariables()}},
-		{`len(A) + I`, []expr.Option{expr.Env(mapEnv), expr.AsInt64()}},
-		{`undefinedOne + len(S)`, []expr.Option{sharedMapEnvOpt, expr.AllowUndefinedVariables()}},
-		{`undefinedTwo == nil and I > 0`, []expr.Option{sharedMapEnvOpt, expr.AllowUndefinedVariables()}},
-		{`I + len(S)`, []expr.Option{sharedMapEnvOpt}},
-		{`S + Tag`, []expr.Option{sharedStructOpt, expr.Operator("+", "AddS")}},
-		{`PtrMeth() + I`, []expr.Option{sharedStructOpt}},
+	mkJobs := func() []job {
+		sharedMapEnvOpt := expr.Env(mapEnv)
+		sharedStructOpt := expr.Env(shared)
+		sharedUndef := expr.AllowUndefinedVariables()
+		return []job{
+			{`S + Tag`, []expr.Option{expr.Env(shared), expr.Operator("+", "AddS")}},
+			{`Up("x") + S`, []expr.Option{expr.Env(shared), expr.ConstExpr("Up")}},
+			{`PtrMeth() + I`, []expr.Option{expr.Env(shared)}},
+			{`Twice(I) in 1..9 and S matches "a"`, []expr.Option{expr.Env(*shared), expr.Patch(noopVisitor{})}},
+			{`Up(S) + "y"`, []expr.Option{expr.Env(mapEnv), expr.AllowUndefinedVariables()}},
+			{`len(A) + I`, []expr.Option{expr.Env(mapEnv), expr.AsInt64()}},
+			{`undefinedOne + len(S)`, []expr.Option{sharedMapEnvOpt, sharedUndef}},
+			{`undefinedTwo == nil and I > 0`, []expr.Option{sharedMapEnvOpt, sharedUndef}},
+			{`undefinedThree ? S : Up(S)`, []expr.Option{sharedMapEnvOpt, sharedUndef}},
+			{`I + len(S)`, []expr.Option{sharedMapEnvOpt}},
+			{`S + Tag`, []expr.Option{sharedStructOpt, expr.Operator("+", "AddS")}},
+			{`PtrMeth() + I`, []expr.Option{sharedStructOpt}},
+			{`undefinedFour == nil`, []expr.Option{sharedStructOpt, sharedUndef}},
+		}
 	}
-	soloBC := make([][]byte, len(jobs))
-	for i, j := range jobs {
+	ref2 := mkJobs()
+	soloBC := make([][]byte, len(ref2))
+	for i, j := range ref2 {
 		p, err := expr.Compile(j.src, j.ops...)
 		if err != nil {
 			fmt.Println("RACER-SETUP-FAILED", j.src, err)
@@ -118,6 +125,7 @@ func main() {
 		soloBC[i] = p.Bytecode
 	}
 	for r := 0; r < rounds; r++ {
+		jobs := mkJobs()
 		var wg sync.WaitGroup
 		start := make(chan struct{})
 		for g := 0; g < G; g++ {
@@ -126,7 +134,9 @@ func main() {
 				defer wg.Done()
 				<-start
 				for m := 0; m < M/3+1; m++ {
-					for i, j := range jobs {
+					for k := range jobs {
+						i := (k + g) % len(jobs) // different goroutines start at different jobs
+						j := jobs[i]
 						p, err := expr.Compile(j.src, j.ops...)
 						if err != nil || !bytes.Equal(p.Bytecode, soloBC[i]) {
 							mu.Lock()
